@@ -22,10 +22,11 @@ class C12(Prop):
             "prices powers of two, zero spread and fees (NLV stays dyadic), integer / quarter holdings reached by "
             "trades, targets k/8 (weights) or k/4 contracts, thresholds k/8 or 0, fractional and whole-lot modes; "
             "imbalance weights land exactly at, just below and just above the threshold; lot imbalances in (-1, 1) are "
-            "forced. Non-trivial = some imbalance weight equals the threshold exactly, or a held contract is absent "
+            "forced; imbalances of less than 1e-7 contracts that are a large share of the account (units worth 2^24+ "
+            "accounts) or tiny targets in numbers of contracts, opening a position and topping one up. Non-trivial = some imbalance weight equals the threshold exactly, or a held contract is absent "
             "from the target with a positive threshold, or a sub-lot imbalance occurs in whole-lot mode; distinct = "
             "distinct cases")
-    nontrivial_tags = {"at-threshold", "liquidation-under-threshold", "sub-lot", "whole-lot"}
+    nontrivial_tags = {"at-threshold", "liquidation-under-threshold", "sub-lot", "whole-lot", "tiny-quantity"}
     assumptions = [
         "exact regime: every double operation of the implementation on these inputs is exact, so the emitted trade "
         "set is compared with zero tolerance",
@@ -54,9 +55,38 @@ class C12(Prop):
         ops.append(["rebal", t + 10, 1, 1, 0, fr(margin), {key: fr(target)}])
         return dict(contracts=contracts, fees=["0", "0", "0"], deposit="65536", exact=True, ops=ops)
 
+    def gen_tiny_open(self, rng):
+        """an imbalance of a tiny fraction of a contract (below the broker's flush-to-zero epsilon, 1e-7) that is
+        nevertheless a large share of the account - one unit is worth 2^24 .. 2^28 accounts - or a tiny target in
+        numbers of contracts; in a contract that is not held yet, and as a top-up of one that is. The rule does not
+        look at the size in contracts: non-zero imbalance, weight at least the threshold -> a trade."""
+        t = bs.T0
+        contracts = [dict(key="S0", kind="ETF"), dict(key="S1", kind="ETF")]
+        by_weight = rng.random() < 0.6
+        big = Fraction(2 ** rng.randint(40, 44))
+        ops = [["q", "S0", t, fr(big), fr(big)] if by_weight else ["q", "S0", t, "16", "16"], ["q", "S1", t, "8", "8"]]
+        if rng.random() < 0.5:
+            ops.append(["tradeq", "S1", fr(Fraction(rng.choice([-64, 32, 256]))), t + 1])
+        if rng.random() < 0.3:
+            ops.append(["tradeq", "S0", "1", t + 2] if not by_weight else ["tradeq", "S1", "1", t + 2])
+        if by_weight:
+            margin = Fraction(rng.choice([0, 1, 2]), 8)
+            tgt = {"S0": fr(Fraction(rng.choice([-6, -4, 3, 4, 5]), 8))}
+        else:
+            margin = Fraction(0)
+            held0 = any(op[0] == "tradeq" and op[1] == "S0" for op in ops)
+            tgt = {"S0": fr((1 if held0 else 0) + Fraction(rng.choice([-1, 1]), 2 ** rng.randint(24, 30)))}
+        if rng.random() < 0.5:
+            tgt["S1"] = fr(Fraction(rng.randint(-2, 2), 8) if by_weight else Fraction(rng.randint(-8, 8)))
+        ops.append(["rebal", t + 10, int(by_weight), 1, 1, fr(margin), tgt])
+        return dict(contracts=contracts, fees=["0", "0", "0"], deposit="65536", exact=True, ops=ops,
+                    probe_make_trades=rng.random() < 0.5, tiny_open=True)
+
     def gen(self, rng, tier):
         if rng.random() < 0.15:
             return self.gen_trunc_vs_threshold(rng)
+        if rng.random() < 0.08:
+            return self.gen_tiny_open(rng)
         n = rng.randint(1, 3)
         contracts, ops, t = [], [], bs.T0
         price, mult = {}, {}
@@ -160,6 +190,8 @@ class C12(Prop):
                     expected[k] = q
             if not ok:
                 continue
+            if case.get("tiny_open") and any(0 < abs(v) < Fraction(1, 10 ** 7) for v in expected.values()):
+                r.tags.add("tiny-quantity")
             if o.get("status") != "ok":
                 r.fail("rebalance-failed", op_index=i, op=o["op"], expected_trades={k: float(v) for k, v in expected.items()},
                        theorem="sub_lot_skipped / trade_emitted_iff",
